@@ -465,7 +465,7 @@ def stats(program):
             elif t == "for":
                 s["loops"] += 1
                 rec(n["c"], in_fill, in_default)
-            elif t in ("with", "provide", "elem"):
+            elif t in ("with", "provide", "elem", "block", "include"):
                 if t == "provide":
                     s["provide"] += 1
                 if t == "elem":
